@@ -96,6 +96,25 @@ def run(env):
             env.violation("two encryptions of the same plaintext are identical on %s" % ctx, {"kind": "battery", "case": {"ctx": ctx, "op": "fresh_encrypt", "args": [pk, m]}})
         if len(set(o[1])) != 50 or "0" in o[1]:
             env.violation("random exponents repeat or are zero on %s" % ctx, {"kind": "battery", "case": {"ctx": ctx, "op": "fresh_rnd_exp", "args": ["50"]}})
+        # exponent transport: two calls differ, and on ristretto the two halves (two ciphertexts) use different randomness
+        ee = env.harness([{"ctx": ctx, "op": "fresh_encrypt_exp", "args": ["12345", pk], "tag": "fresh"}])[0]
+        if isinstance(ee, list):
+            if ee[0] == ee[1]:
+                env.violation("two exponent-transport encryptions of the same exponent are identical on %s" % ctx, {"kind": "battery", "case": {"ctx": ctx, "op": "fresh_encrypt_exp"}})
+            if ctx == "R":
+                b = bytes.fromhex(ee[0][2:])
+                if len(b) == 4 + 128 and b[4 + 32:4 + 64] == b[4 + 96:4 + 128]:
+                    env.violation("ristretto encrypt_exp encrypts both halves of the exponent with the same randomness (equal g^r components)",
+                                  {"kind": "battery", "case": {"ctx": ctx, "op": "fresh_encrypt_exp", "out": ee[0]}})
+        else:
+            env.violation("encrypt_exp failed with OS entropy on %s: %s" % (ctx, ee), {"kind": "battery", "case": {"ctx": ctx}})
+        # every kind of sigma proof, twice by the same secret (one Zkp value and fresh ones): all ten commitments distinct
+        sg = env.harness([{"ctx": ctx, "op": "fresh_sigma", "args": ["5", m], "tag": "fresh"}])[0]
+        if not isinstance(sg, list) or len(set(sg)) != len(sg):
+            env.violation("sigma proofs by the same secret share a nonce (equal commitments among schnorr/cp/popk/decryption proofs) on %s" % ctx,
+                          {"kind": "battery", "case": {"ctx": ctx, "op": "fresh_sigma"}, "out": sg})
+        elif any(c in (g_s, pk, one) for c in sg):
+            env.violation("a sigma-proof commitment equals a public base on %s" % ctx, {"kind": "battery", "case": {"ctx": ctx, "op": "fresh_sigma"}, "out": sg})
         # two proofs by the same secret: different commitments and (hence) unrelated responses; commitment never a public base
         prf = env.harness([{"ctx": ctx, "op": "schnorr_prove", "args": ["5", pk, None, "x:", "x:"], "tag": "fresh"} for _ in range(2)])
         # note: an empty script installs a scripted stream (SplitMix continuation): use the unscripted op set instead
